@@ -5,6 +5,8 @@
 #include "bitserializer/bit_serializer.h"
 #include "bitserializer/serialization_detail/generic_map.h"
 #include <map>
+#include <set>
+#include "bitserializer/serialization_detail/generic_set.h"
 namespace verif_inst {
 using namespace BitSerializer;
 class AbsLoadMapScope : public TArchiveScope<SerializeMode::Load> {
@@ -21,5 +23,12 @@ public:
   void BeginVisit(); void EndStep(); void EndVisit();
   template <class F> void VisitKeys(F&& fn) { BeginVisit(); if (NextKey()) { fn(CurrentKey()); EndStep(); } EndVisit(); }
 };
+class AbsLoadSetScope : public TArchiveScope<SerializeMode::Load> {
+public:
+  explicit AbsLoadSetScope(SerializationContext& ctx) : TArchiveScope<SerializeMode::Load>(ctx) {}
+  bool IsEnd() const;
+  bool SerializeValue(int& value);
+};
+void load_set(AbsLoadSetScope& scope, std::set<int>& cont) { BitSerializer::Detail::SerializeSetImpl(scope, cont); }
 void load_map(AbsLoadMapScope& scope, std::map<int, int>& cont, MapLoadMode mode) { BitSerializer::Detail::SerializeMapImpl(scope, cont, mode); }
 }
